@@ -555,7 +555,7 @@ func runOpsimWL(e *Env) {
 		oracleC01(r)
 		oracleC11(r)
 		oracleC18(r)
-		if opts.Shutdown {
+		if opts.Shutdown && shutdownReturned && err == nil {
 			oracleC17(r, shutdownCalledAt, shutdownReturnedAt)
 		}
 	}
